@@ -329,7 +329,7 @@ def eckey(i, compressed=True):
 
 
 SPEND_TEMPLATES = ["p2pk", "p2pkh", "multisig", "p2sh_multisig", "p2wpkh", "p2sh_p2wpkh", "p2wsh_multisig", "p2wsh_script", "p2sh_script", "p2sh_p2wsh_script",
-                   "p2tr_key", "p2tr_checksig", "p2tr_csa", "p2tr_budget", "p2tr_script", "p2tr_leafver", "witness_unknown", "bare_script"]
+                   "p2tr_key", "p2tr_checksig", "p2tr_csa", "p2tr_budget", "p2tr_unknownpk", "p2tr_unknownpk", "p2tr_script", "p2tr_leafver", "witness_unknown", "bare_script"]
 MUTATIONS = ["none", "none", "none", "sigbit", "hashtype", "highs", "derpad", "wrongkey", "extrawit", "dummy", "sigmall", "emptysig", "amount", "dropwit", "uncompressed",
              "hybrid", "annex", "sighash_default_byte", "swap"]
 
@@ -356,6 +356,20 @@ def k_spend(draw):
     if t == "p2tr_budget":
         ex["nsig"] = draw(st.integers(6, 9))
         ex["pad"] = draw(st.sampled_from([-2, -1, 0, 0, 1, 30]))
+    if t == "p2tr_unknownpk":
+        # BIP342: a signature opcode with a non-empty signature is charged 50 units also when the public key has an unknown type
+        # (length other than 0 / 32); nsig such opcodes around the budget 50 + witness size (annex padding: valid iff pad >= 0)
+        ex["pklen"] = draw(st.sampled_from([1, 1, 2, 16, 31, 33, 33, 65]))
+        ex["nsig"] = draw(st.integers(2, 12))
+        ex["pad"] = draw(st.sampled_from([-2, -1, -1, 0, 0, 1, 7]))
+        ex["form"] = draw(st.integers(0, 2))
+        ex["siglen"] = draw(st.sampled_from([1, 1, 2, 64, 65]))
+        fl = set(ex["flags"]) | {"P2SH", "WITNESS", "TAPROOT"}
+        if draw(st.integers(0, 2)):
+            fl.discard("DISCOURAGE_UPGRADABLE_PUBKEYTYPE")
+        else:
+            fl.add("DISCOURAGE_UPGRADABLE_PUBKEYTYPE")
+        ex["flags"] = sorted(R._fill_flags(fl))
     if t == "p2tr_leafver":
         ex["leafver"] = draw(st.sampled_from([0xc2, 0xc4, 0x50 & 0xfe, 0xfe, 0x66, 0xc0]))
     if t == "witness_unknown":
@@ -606,6 +620,12 @@ def c_spend(sut, ex, c):
                 leaf = R.push_data(xs[0]) + b"\xac" + b"".join(R.push_data(x) + b"\xba" for x in xs[1:]) + bytes([0x50 + min(ex["k"], ex["nsig"]), 0x9c])
             elif t == "p2tr_budget":
                 leaf = b"\x6e\xad" * (ex["nsig"] - 1) + b"\xac"
+            elif t == "p2tr_unknownpk":
+                upk = R.push_data(bytes([0xaa]) * ex["pklen"])
+                unit = [b"\x76" + upk + b"\xad",                      # DUP <pk> CHECKSIGVERIFY
+                        b"\x76\x00" + upk + b"\xba\x75",                # DUP 0 <pk> CHECKSIGADD DROP
+                        b"\x76" + upk + b"\xac\x69"][ex["form"]]        # DUP <pk> CHECKSIG VERIFY
+                leaf = unit * ex["nsig"] + b"\x75\x51"                  # ... DROP 1
             else:
                 leaf = inner
             ver = ex.get("leafver", 0xc0) if t == "p2tr_leafver" else 0xc0
@@ -664,6 +684,16 @@ def c_spend(sut, ex, c):
                     ln = extra - 1 if extra - 1 < 253 else extra - 3
                     annex = [b"\x50" + bytes(ln - 1)] if ln >= 1 else []
                 stack_items = [schnorr(), xonly]
+            elif t == "p2tr_unknownpk":
+                dummy_sig = b"\x01" * ex["siglen"] if mut != "emptysig" else b""
+                body = [dummy_sig, leaf, control]
+                size0 = 1 + sum(len(R.compact_size(len(e))) + len(e) for e in body)
+                extra = 50 * ex["nsig"] - 50 + ex["pad"] - size0
+                if extra >= 2 and not annex:
+                    ln = extra - 1 if extra - 1 <= 252 else extra - 3
+                    annex = [b"\x50" + bytes(ln - 1)]
+                    c.cls("unknownpk:budget-edge" + ("-over" if ex["pad"] < 0 else "-within"))
+                stack_items = [dummy_sig]
             else:
                 stack_items = init_stack
             witness = stack_items + [leaf, control] + annex
@@ -702,7 +732,7 @@ def c_spend(sut, ex, c):
     c.cls("mut:" + mut)
     if ok:
         c.cls("spend-ok:" + t)
-    account(c, trace, ok, code, boundary_in(items) or mut != "none" or t in ("p2tr_csa", "p2tr_budget", "witness_unknown", "p2tr_leafver"), (t, mut))
+    account(c, trace, ok, code, boundary_in(items) or mut != "none" or t in ("p2tr_csa", "p2tr_budget", "p2tr_unknownpk", "witness_unknown", "p2tr_leafver"), (t, mut))
 
 
 check = e2.dispatch({"eval": c_eval, "spend": c_spend})
